@@ -36,9 +36,9 @@ Definition rtopk_insert (s : store) (t : rtopk) (x : bytes) (count : N) : outcom
     match rcms_count cpos s1 sk x with
     | Ok f =>
         let z := r_zset s1 (rt_heap t) in
-        let admit := (N.of_nat (length z) <? rt_k t) ||
+        let accept := (N.of_nat (length z) <? rt_k t) ||
                      (match z with e :: _ => snd e <=? f | [] => false end) in
-        if admit then
+        if accept then
           let s2 := match z_score x z with
                     | Some sc => if 0 <? sc then r_zrem s1 (rt_heap t) x else s1
                     | None => s1
